@@ -52,6 +52,8 @@ type Result struct {
 	Workers        int            `json:"workers"`
 }
 
+var smtLogPath string
+
 type stringList []string
 
 func (s *stringList) String() string     { return strings.Join(*s, ",") }
@@ -83,6 +85,7 @@ func main() {
 	flag.StringVar(&timeLimit, "timelimit", "", "wall-clock limit (e.g. 10m)")
 	flag.StringVar(&out, "out", "", "result JSON path")
 	var cpuprof string
+	flag.StringVar(&smtLogPath, "smtlog", "", "log SMT input of worker 0 to this file")
 	flag.StringVar(&cpuprof, "cpuprofile", "", "write CPU profile")
 	flag.Parse()
 	if cpuprof != "" {
@@ -161,6 +164,10 @@ func runHarness(cfg *Config) *Result {
 			res.Status = "inconclusive"
 			res.StopReason = "solver: " + err.Error()
 			return res
+		}
+		if k == 0 && smtLogPath != "" {
+			lf, _ := os.Create(smtLogPath)
+			s.log = lf
 		}
 		w := &Worker{id: k, ex: ex, cfg: cfg, P: P, solver: s, harnessPkg: P.pkg, harnessFn: fn,
 			intrinsicsUsed: map[string]bool{}, nativesUsed: map[string]bool{}, stubsUsed: map[string]bool{}}
